@@ -54,7 +54,7 @@ RULE = ('the archive NAME is a regular file or (own sweeps: 4 configurations + 2
         'empty, 1, 2, 3 records} x record bodies (0 .. 20000 bytes, so the append is 1..n raw writes) x EVERY primitive '
         'index of the fault-free run x {OSError, kill} x partial-write amounts {0, 1, half, all-1, all}; OSError from the '
         'record source at 4 positions; the CLASS of the injected error is a dimension: OSError(ENOSPC), OSError(EIO), '
-        'PermissionError(EACCES), PermissionError(EPERM), FileNotFoundError(ENOENT), InterruptedError (not on raw writes: '
+        'PermissionError(EACCES), PermissionError(EPERM), FileNotFoundError(ENOENT), ENAMETOOLONG, ENOTDIR, EROFS, ELOOP, InterruptedError (not on raw writes: '
         'PEP 475, the io layer retries those itself), BlockingIOError, TimeoutError, bare IOError, and five kinds that are '
         'NOT I/O errors: KeyboardInterrupt, asyncio.CancelledError, SystemExit, MemoryError, ValueError -- quick: the class '
         'rotates with the primitive index and the variant, so every class meets open, write, close, truncate, unlink; '
@@ -70,7 +70,7 @@ RULE = ('the archive NAME is a regular file or (own sweeps: 4 configurations + 2
         'archives (none; same name; plain + numbered + -meta; numbered + -meta; empty) -- 6 fixed lives (first append over '
         'a left-over file, roll-over + -meta over left-overs, appending with used numbers) + 4 sampled per quick run, the '
         'whole grid in thorough; plus lives under prefixes that carry the extension already / end in letters of ".warcgz" / '
-        'contain dots (3 fixed + 1 drawn in quick, 7 in thorough) -- x EVERY primitive of the life (constructor .. close()) x {OSError, real kill} (writes: '
+        'contain dots (3 fixed + 1 drawn in quick, 7 in thorough), and 8 lives whose archive name is 246/247/250/255 bytes (NAME_MAX edge of the real file system) -- x EVERY primitive of the life (constructor .. close()) x {OSError, real kill} (writes: '
         'prefix 0 and half), 30/60 second faults per life; 72 lives that start next to a crash journal (0/1/3 complete records + torn fragment, journal naming the cut; plain, numbered, -meta) which must be refused and be the identity on the directory; after every kill that leaves a journal: restarts in the default and the appending mode, directory compared byte for byte. startup: prefixes (plain, glob '
         'metacharacters, empty, non-ASCII) x journal present/absent x unrelated and near-miss names. '
         'non-trivial = at least one fault or kill is scheduled (startup: at least one file); '
@@ -101,9 +101,11 @@ class Die(BaseException):
 import errno as _errno
 
 # the class of the injected I/O error is a dimension of its own: `except (OSError, IOError)` must treat them alike
-ERR_CLASSES = ['enospc', 'eio', 'eacces', 'eperm', 'enoent', 'eintr', 'eagain', 'etimedout', 'ioerror']
+ERR_CLASSES = ['enospc', 'eio', 'eacces', 'eperm', 'enoent', 'eintr', 'eagain', 'etimedout', 'ioerror',
+               'enametoolong', 'enotdir', 'erofs', 'eloop']
 _ERRNO = {'enospc': _errno.ENOSPC, 'eio': _errno.EIO, 'eacces': _errno.EACCES, 'eperm': _errno.EPERM,
-          'enoent': _errno.ENOENT, 'eintr': _errno.EINTR, 'eagain': _errno.EAGAIN, 'etimedout': _errno.ETIMEDOUT}
+          'enoent': _errno.ENOENT, 'eintr': _errno.EINTR, 'eagain': _errno.EAGAIN, 'etimedout': _errno.ETIMEDOUT,
+          'enametoolong': _errno.ENAMETOOLONG, 'enotdir': _errno.ENOTDIR, 'erofs': _errno.EROFS, 'eloop': _errno.ELOOP}
 
 
 # exceptions that are NOT I/O errors but can surface inside an append just as well (second Ctrl+C with Python's
@@ -863,6 +865,10 @@ def check_oracles(ctx, case, r):
                  'the first %d bytes of the archive differ from what it held before the append (status %s)'
                  % (len(b0), r['status']))
         return
+    bad = uncovered_archive_primitive([['mark', 'write_record', None, 'ok']] + list(r['trace']))
+    if bad is not None:
+        ctx.fail('append-without-journal', 'write_record', pc,
+                 'the archive was touched (%s %s) while no completely written journal of this append existed' % (bad[0], bad[2] if not isinstance(bad[2], bytes) else '%d bytes' % len(bad[2])))
     non_os = [c for c in injected_classes(case) if not is_os_class(c)]
     if r['status'] == 'raised' and r.get('exc') and not r['exc'][1] and not non_os:
         ctx.fail('fault-changed-exception', 'write_record', pc,
@@ -921,6 +927,35 @@ def check_oracles(ctx, case, r):
                      'the %s restart next to the journal of the killed append was refused, but file %r went from %s to %s '
                      'bytes: the journal (offset %d) can no longer restore the earlier records'
                      % (mode, n, None if x is None else len(x), None if y is None else len(y), len(b0)))
+
+
+def uncovered_archive_primitive(trace):
+    """Direct reading of 'the journal is written before the archive is opened for append' on the real log: the
+    first primitive that opens the archive for writing / writes to it while no journal of THIS write_record has
+    been completely created (open, write, close all succeeded) and not yet removed.  -> entry or None"""
+    jopen = jwrite = covered = False
+    for entry in trace:
+        kind, role, arg, out = entry[0], entry[1], entry[2], entry[3]
+        if kind == 'mark':
+            if role == 'write_record':
+                jopen = jwrite = covered = False
+            elif role == 'start':
+                covered = None          # truncate_file of a non-appending start: no journal expected
+            continue
+        ok = out == 'ok'
+        if role == 'j':
+            if kind == 'open':
+                jopen, jwrite, covered = ok, False, False
+            elif kind == 'write':
+                jwrite = jopen and ok
+            elif kind == 'close':
+                covered = bool(jopen and jwrite and ok)
+            elif kind == 'unlink' and ok:
+                covered = False
+        elif role == 'a' and covered is False and ok:
+            if (kind == 'open' and arg in ('a', 'w', 'r+', 'w+', 'a+')) or kind in ('write', 'truncate'):
+                return entry
+    return None
 
 
 def phases(trace):
@@ -1395,6 +1430,10 @@ def check_life_oracles(ctx, case, r, steps):
     def fail(kind, detail):
         ctx.fail(kind, 'life', pc, detail)
 
+    bad = uncovered_archive_primitive(r['trace'])
+    if bad is not None:
+        fail('append-without-journal', 'an archive was touched (%s %s) while no completely written journal of that append '
+             'existed' % (bad[0], bad[2] if not isinstance(bad[2], bytes) else '%d bytes' % len(bad[2])))
     non_os = [c for c in injected_classes(case) if not is_os_class(c)]
     if status == 'raised' and r.get('exc') and not r['exc'][1] and not non_os:
         fail('fault-changed-exception', 'the life ended with %s, which is not an OSError (injected faults are I/O errors; '
@@ -1625,6 +1664,12 @@ def run_life_stream(ctx, rng, thorough):
     for idx, (prefix, compress, max_size, log) in enumerate(pl if thorough else pl[:3] + rng.sample(pl[3:], 1)):
         sweep_life(ctx, compress, bool(idx % 2), max_size, log, LEFTOVER_SETS[1 if max_size is None else 2], [700, 50], rng,
                    doubles=ctx.scale(10, 60), prefix=prefix)
+    # names at the NAME_MAX edge of the real file system: archive name 246 / 247 / 250 / 255 bytes (with the journal
+    # suffix: 255 fits, the others do not) -- either the run refuses, or every append is covered by a journal
+    for compress in (False, True):
+        for total in (246, 247, 250, 255):
+            sweep_life(ctx, compress, False, None, False, [], [700, 50], rng, doubles=ctx.scale(10, 40),
+                       prefix='n' * (total - len(ext_of(compress))))
     # the KIND of the archive name is a dimension: every archive name a symbolic link into another directory
     ll = [(False, True, None, False, LEFTOVER_SETS[1]), (True, True, 900, True, LEFTOVER_SETS[2]),
           (True, False, None, False, LEFTOVER_SETS[1]), (False, False, 900, False, LEFTOVER_SETS[3])]
